@@ -145,3 +145,63 @@ func PBConstrsOf(l ref.Lin) []solver.PBConstr {
 func ModelOK(p *ref.Problem, model []bool) int {
 	return p.FirstViolated(ref.BoolsToAssign(model))
 }
+
+// RenderOPB writes p as a plain OPB text (one constraint per line, <= rewritten as >= by negating both sides).
+func RenderOPB(p *ref.Problem) string {
+	var sb strings.Builder
+	fmt.Fprintf(&sb, "* #variable= %d #constraint= %d\n", p.N, len(p.Cons))
+	term := func(w, l int) {
+		if l < 0 {
+			fmt.Fprintf(&sb, "%+d ~x%d ", w, -l)
+		} else {
+			fmt.Fprintf(&sb, "%+d x%d ", w, l)
+		}
+	}
+	if p.HasCost {
+		sb.WriteString("min: ")
+		for i, l := range p.CostLits {
+			w := 1
+			if p.CostW != nil {
+				w = p.CostW[i]
+			}
+			term(w, l)
+		}
+		sb.WriteString(";\n")
+	}
+	for _, c := range p.Cons {
+		sign := 1
+		if c.Rel == ref.LE {
+			sign = -1
+		}
+		for i, l := range c.Lits {
+			w := 1
+			if c.Coefs != nil {
+				w = c.Coefs[i]
+			}
+			term(sign*w, l)
+		}
+		if c.Rel == ref.EQ {
+			fmt.Fprintf(&sb, "= %d ;\n", c.Rhs)
+		} else {
+			fmt.Fprintf(&sb, ">= %d ;\n", sign*c.Rhs)
+		}
+	}
+	return sb.String()
+}
+
+// ToLits converts DIMACS-style ints to solver literals.
+func ToLits(ints []int) []solver.Lit {
+	res := make([]solver.Lit, len(ints))
+	for i, v := range ints {
+		res[i] = solver.IntToLit(int32(v))
+	}
+	return res
+}
+
+// CopyInts returns a fresh copy, keeping nil as nil.
+func CopyInts(l []int) []int {
+	if l == nil {
+		return nil
+	}
+	return append([]int{}, l...)
+}
